@@ -29,6 +29,11 @@ either argument: the entries between ordinary RDMs must be invariant and equal t
 The geo-topological transform must follow ONE reading of 'its quantile thresholds' (joint / per
 RDM) for all nine quantile pairs of a stack, boundary pairs (0,1), (0,u), (l,1) included.
 
+Sequences: every ordered pair (first call, second call) of the 11 compare configurations and 7
+transforms on ONE pair of RDMs objects (compare only: also plain arrays): inputs bit-identical
+after each call, the second result equal to the one on fresh objects and invariant (map of its
+class applied to the privately kept true values).
+
 Part T also runs minmax / geodesic on integer-valued RDMs with values 1..K for every K (value
 range K-1, and five positive affine images of each) and requires the extremes to go to exactly
 0 and 1.  Part P/N (rank-based evaluations have noise ceilings): both pool_rdm twins against
@@ -116,6 +121,7 @@ BOUNDS = {
                                      'block with its zero / constant vectors, all maps, all sides; fills with an all-zero RDM '
                                      'inserted in the first / second / both stacks (one placement per fill and value kind)',
               'geotop_stacks': 'all Tier-A 2-stacks and fills with 1, 2 and 3 RDMs x 9 quantile pairs, reading consistent per stack',
+              'sequences': 'fills n_cond 4,5 x 3 value kinds: all 18x18 ordered call pairs on RDMs objects, 11x11 on arrays',
               'integer_ranges': 'K = 2..64: {1,K//2+1,K}^3 (27), [K,a,b,c,d,1] (16), 3 integer fills; each alone and as 5 affine images',
               'pool_and_noise_ceilings': {'pool_tierA': 'all 729 2-stacks over {0,1,2}^3, one treatment each (rotating)',
                                           'pool_fills': 'n_cond 4,5 x n_rdm 2,3,4 x 3 value kinds x 2 fills x 10 treatments; common NaN n_cond=4,n_rdm=3',
@@ -130,6 +136,7 @@ BOUNDS = {
                                 'common_nan': 'rank-based as quick; corr/cosine types: all fills, all sides, n_cond 4 every pair of positions',
                                 'centring_law': 'as quick with 4 fills'},
                  'degenerate_in_stack': 'as quick plus the {-1,0,1,2}^3 blocks; fills: every placement, every side',
+                 'sequences': 'as quick with 3 fills',
                  'integer_ranges': 'K = 2..128 as in quick; K = 2..64: all 729 vectors over {1,K//2+1,K}^6',
                  'pool_and_noise_ceilings': {'pool_tierA': 'all 2-stacks over {0,1,2}^3 and {-1,0,1,2}^3, all 19683 3-stacks over {0,1,2}^3',
                                              'pool_fills': 'as quick with 6 fills',
@@ -1224,13 +1231,13 @@ def run_S(case, ctx, cache=None):
                 a, b, _ = _seq_objects(f(X.copy()), Y, rep)
                 cache[('inv',) + key[1:]] = _seq_call(second, a, b, n_cond, ctx.seed)
         a, b, watched = _seq_objects(X, Y, rep)
-        truth = [X, Y, X, Y]
         for op, nm in ((first, n1), (second, n2)):
+            before = [np.array(w, copy=True) for w in watched]     # attribute a change to the call that made it
             got = _seq_call(op, a, b, n_cond, ctx.seed)
-            for w, t in zip(watched, truth):
+            for w, t in zip(watched, before):
                 if not np.array_equal(w, t, equal_nan=True):
                     ctx.fail('sequence|call=%s,%s|input-modified' % (nm, rep), case,
-                             'after %s the input holds %s, it was built from %s' % (nm, np.asarray(w).tolist(), t.tolist()))
+                             'the call %s changed its input from %s to %s' % (nm, t.tolist(), np.asarray(w).tolist()))
                     break
         ctx.outcome(np.round(np.nan_to_num(got, nan=-7.0, posinf=-8.0), 7).tolist())
         if not allclose(got, cache[key], tol):
